@@ -934,6 +934,8 @@ def run(ctx, res):
     check_batchinv_par(res, facts)
     from rules import c01_cios
     c01_cios.check_cios(res, facts, ["ws", "curves", "shapes"])
+    from rules import lincomb
+    lincomb.check_field_ops(res, facts, ("fp::Fp<",), 20)
     res.notes.append("moduli analysed: %d (units %s); reduction helpers: %d; geq-predicates: %d" % (len(mods), UNITS, len(reducers), len(pinfo)))
     return {
         "level": "other",
